@@ -56,10 +56,13 @@ def cases(draw, max_lines=48, max_pixels=32):
 
 
 def plan(tier):
+    pairs = common.in_place_pairs(cases(16, 8))
     if tier == "quick":
-        return [{"kind": "hyp", "name": "products", "strategy": cases(), "examples": 480}]
+        return [{"kind": "hyp", "name": "products", "strategy": cases(), "examples": 480},
+                {"kind": "hyp", "name": "in-place-pairs", "strategy": pairs, "examples": 80}]
     return [
         {"kind": "hyp", "name": "products", "strategy": cases(), "examples": 16 * 1200},
+        {"kind": "hyp", "name": "in-place-pairs", "strategy": pairs, "examples": 16 * 200},
         {"kind": "hyp", "name": "large", "strategy": cases(400, 64), "examples": 16 * 60},
     ]
 
